@@ -49,12 +49,10 @@ def specHandler : Handler → Req → Trace → Res
   | .raise src, r, t => .stop (.err t (raiseStatus src r) r)
   | .invoke _, r, t => .stop (.err t 0 r)
   | .answer src, r, t =>
-    match src with
-    | .empty => .stop (.done t (some (answerDefault r)))
-    | _ =>
-      match src.resolve r with
-      | some n => .stop (.done t (some n))
-      | none => .stop (.err t 500 r)
+    match answerStep src r with
+    | .write n => .stop (.done t (some n))
+    | .hint => .cont r (t ++ [hintEv])
+    | .fail => .stop (.err t 500 r)
   | .sub rs hasErrs errs, r, t =>
     match specRoutes rs r t with
     | .cont r' t' => .cont r' t'
